@@ -1380,7 +1380,28 @@ func (t *tr) call(x *ast.CallExpr, c *ectx) string {
 		t.fail(x, "call to a function that is not translated")
 	}
 	if len(fi.mutated) > 0 {
-		t.fail(x, "call to %s (writes through a pointer) in expression position", fi.key)
+		// every argument written through is a temporary (the result of a call: nothing else can observe the writes), the
+		// callee is fallible and has one result: the new values are dropped
+		var argExprs []ast.Expr
+		if fi.recv != nil {
+			argExprs = append(argExprs, x.Fun.(*ast.SelectorExpr).X)
+		}
+		argExprs = append(argExprs, x.Args...)
+		temps := fi.res && !fi.stateful && !fi.stCallback && fi.sig.Results().Len() == 1 && c.hoists != nil && !c.inSC
+		for _, mi := range fi.mutated {
+			if mi >= len(argExprs) {
+				temps = false
+			} else if _, isCall := unparen(argExprs[mi]).(*ast.CallExpr); !isCall {
+				temps = false
+			}
+		}
+		if !temps {
+			t.fail(x, "call to %s (writes through a pointer) in expression position", fi.key)
+		}
+		n := t.tmp()
+		pat := "(" + strings.Repeat("_, ", len(fi.mutated)) + n + ")"
+		*c.hoists = append(*c.hoists, hoist{name: n, kind: "res", pat: pat, expr: t.apply(fi, args)})
+		return n
 	}
 	if fi.stateful {
 		t.fail(x, "call to %s (takes a state-passing callback) in expression position", fi.key)
@@ -1536,7 +1557,7 @@ func (t *tr) stateOf1(fi *funcInfo, x *ast.CallExpr, withFn bool) (init, pat, fn
 		if sel, ok := x.Fun.(*ast.SelectorExpr); ok {
 			if id := baseIdent(sel.X); id != nil {
 				for _, v := range vs {
-					if t.info.Uses[id] == types.Object(v) {
+					if t.info.Uses[id] == types.Object(v) && !t.disjointField(sel.X, v, a) {
 						t.fail(x, "variable %s is assigned by the callback and is the receiver of the call", v.Name())
 					}
 				}
@@ -1570,6 +1591,50 @@ func (t *tr) stateOf1(fi *funcInfo, x *ast.CallExpr, withFn bool) (init, pat, fn
 	}
 	t.fail(x, "the state-passing parameter of %s takes a function literal or the caller's own state-passing parameter", fi.key)
 	return
+}
+
+// the receiver of the call is the field `v.F` (directly) and the literal only touches OTHER fields of v: the callee's
+// writes (to v.F, stored back after the call) and the literal's (threaded through the state) cannot meet
+func (t *tr) disjointField(recv ast.Expr, v *types.Var, lit *ast.FuncLit) bool {
+	rs, ok := unparen(recv).(*ast.SelectorExpr)
+	if !ok {
+		return false
+	}
+	if id, ok := rs.X.(*ast.Ident); !ok || t.info.Uses[id] != types.Object(v) {
+		return false
+	}
+	rsel, ok := t.info.Selections[rs]
+	if !ok || rsel.Kind() != types.FieldVal || len(rsel.Index()) != 1 {
+		return false
+	}
+	fidx := rsel.Index()[0]
+	good := true
+	parents := map[*ast.Ident]*ast.SelectorExpr{}
+	ast.Inspect(lit.Body, func(m ast.Node) bool {
+		if se, ok := m.(*ast.SelectorExpr); ok {
+			if id, ok := se.X.(*ast.Ident); ok {
+				parents[id] = se
+			}
+		}
+		return true
+	})
+	ast.Inspect(lit.Body, func(m ast.Node) bool {
+		id, ok := m.(*ast.Ident)
+		if !ok || t.info.Uses[id] != types.Object(v) {
+			return true
+		}
+		se := parents[id]
+		if se == nil {
+			good = false
+			return false
+		}
+		sl, ok := t.info.Selections[se]
+		if !ok || len(sl.Index()) == 0 || sl.Index()[0] == fidx {
+			good = false
+		}
+		return good
+	})
+	return good
 }
 
 // a function literal in state-passing form (see above)
@@ -1676,8 +1741,12 @@ func (t *tr) registerExterns() {
 			}
 			sig := fo.Type().(*types.Signature)
 			if fo.Pkg() == t.pkg {
-				// only methods of an interface of this package that the unit declares as a class
+				// only methods of an interface of this package that the unit declares as a class, and plain functions of
+				// this package that the unit declares as generated elsewhere (ExternFuncs["pkg.F"])
 				isIface := false
+				if _, ok := t.unit.ExternFuncs[t.pkg.Name()+"."+fo.Name()]; ok && sig.Recv() == nil {
+					isIface = true
+				}
 				if sig.Recv() != nil {
 					if nm, ok := sig.Recv().Type().(*types.Named); ok {
 						if _, ok := t.unit.Ifaces[t.pkg.Name()+"."+nm.Obj().Name()]; ok {
@@ -2236,23 +2305,31 @@ func (t *tr) forEachAsRange(x *ast.CallExpr) *ast.RangeStmt {
 	if len(names) != 2 || n == 0 {
 		t.fail(x, "unsupported ForEach callback")
 	}
-	last, ok := lit.Body.List[n-1].(*ast.ReturnStmt)
-	if !ok || len(last.Results) != 1 {
-		t.fail(x, "unsupported ForEach callback (must end with `return false`)")
-	}
-	if id, ok := last.Results[0].(*ast.Ident); !ok || id.Name != "false" {
-		t.fail(x, "unsupported ForEach callback (must end with `return false`)")
-	}
-	body := &ast.BlockStmt{Lbrace: lit.Body.Lbrace, List: lit.Body.List[:n-1], Rbrace: lit.Body.Rbrace}
-	early := false
-	ast.Inspect(body, func(m ast.Node) bool {
-		if _, ok := m.(*ast.ReturnStmt); ok {
-			early = true
+	simple := false
+	if last, ok := lit.Body.List[n-1].(*ast.ReturnStmt); ok && len(last.Results) == 1 {
+		if id, ok := last.Results[0].(*ast.Ident); ok && id.Name == "false" {
+			simple = true
+			ast.Inspect(&ast.BlockStmt{List: lit.Body.List[:n-1]}, func(m ast.Node) bool {
+				if _, ok := m.(*ast.ReturnStmt); ok {
+					simple = false
+				}
+				return simple
+			})
 		}
-		return !early
-	})
-	if early {
-		t.fail(x, "ForEach callback with an early return")
+	}
+	var body *ast.BlockStmt
+	if simple {
+		body = &ast.BlockStmt{Lbrace: lit.Body.Lbrace, List: lit.Body.List[:n-1], Rbrace: lit.Body.Rbrace}
+	} else {
+		// the general form: `return e` is `if e { break } else { continue }` (the enumeration stops when the callback
+		// returns true); the literal must not name its result and must return on every path
+		if lit.Type.Results == nil || len(lit.Type.Results.List) != 1 || len(lit.Type.Results.List[0].Names) != 0 {
+			t.fail(x, "unsupported ForEach callback (named result with early returns)")
+		}
+		if _, ok := lit.Body.List[n-1].(*ast.ReturnStmt); !ok {
+			t.fail(x, "unsupported ForEach callback (must end with a return)")
+		}
+		body = &ast.BlockStmt{Lbrace: lit.Body.Lbrace, List: t.returnsAsJumps(lit.Body.List), Rbrace: lit.Body.Rbrace}
 	}
 	rs := &ast.RangeStmt{For: lit.Pos(), Key: names[0], Value: names[1], Tok: token.DEFINE, X: sel.X, Body: body}
 	if t.forEachRange == nil {
@@ -2260,6 +2337,51 @@ func (t *tr) forEachAsRange(x *ast.CallExpr) *ast.RangeStmt {
 	}
 	t.forEachRange[rs] = is.Class
 	return rs
+}
+
+// the body of a ForEach callback as a loop body: `return e` => `if e { break } else { continue }`
+func (t *tr) returnsAsJumps(list []ast.Stmt) []ast.Stmt {
+	var out []ast.Stmt
+	for _, st := range list {
+		switch x := st.(type) {
+		case *ast.ReturnStmt:
+			if len(x.Results) != 1 {
+				t.fail(x, "unsupported return in a ForEach callback")
+			}
+			brk := &ast.BranchStmt{TokPos: x.Pos(), Tok: token.BREAK}
+			cont := &ast.BranchStmt{TokPos: x.Pos(), Tok: token.CONTINUE}
+			if id, ok := x.Results[0].(*ast.Ident); ok && (id.Name == "false" || id.Name == "true") {
+				if _, isConst := t.info.Uses[id].(*types.Const); isConst {
+					if id.Name == "true" {
+						out = append(out, brk)
+					} else {
+						out = append(out, cont)
+					}
+					continue
+				}
+			}
+			out = append(out, &ast.IfStmt{If: x.Pos(), Cond: x.Results[0], Body: &ast.BlockStmt{Lbrace: x.Pos(), List: []ast.Stmt{brk}, Rbrace: x.End()},
+				Else: &ast.BlockStmt{Lbrace: x.Pos(), List: []ast.Stmt{cont}, Rbrace: x.End()}})
+		case *ast.BlockStmt:
+			out = append(out, &ast.BlockStmt{Lbrace: x.Lbrace, List: t.returnsAsJumps(x.List), Rbrace: x.Rbrace})
+		case *ast.IfStmt:
+			c := *x
+			c.Body = &ast.BlockStmt{Lbrace: x.Body.Lbrace, List: t.returnsAsJumps(x.Body.List), Rbrace: x.Body.Rbrace}
+			if x.Else != nil {
+				c.Else = t.returnsAsJumps([]ast.Stmt{x.Else})[0]
+			}
+			out = append(out, &c)
+		default:
+			ast.Inspect(st, func(m ast.Node) bool {
+				if r, ok := m.(*ast.ReturnStmt); ok {
+					t.fail(r, "return inside a loop or switch of a ForEach callback")
+				}
+				return true
+			})
+			out = append(out, st)
+		}
+	}
+	return out
 }
 
 // `copy(dst, src)` as a statement.  `copy(x[a:], x[b:c])` on one slice is a memmove inside it
@@ -2876,7 +2998,11 @@ func (t *tr) resultType(fi *funcInfo, i int) string {
 					return false
 				}
 				if r, ok := m.(*ast.ReturnStmt); ok && i < len(r.Results) {
-					ty := t.leanType(t.typeOf(r.Results[i]))
+					rty := t.typeOf(r.Results[i])
+					if tup, isTup := rty.(*types.Tuple); isTup && len(r.Results) == 1 && i < tup.Len() {
+						rty = tup.At(i).Type() // `return g(…)` with a multi-value g
+					}
+					ty := t.leanType(rty)
 					if conc != "" && conc != ty {
 						t.fail(r, "returns of different concrete types for an interface result")
 					}
@@ -2926,9 +3052,14 @@ func (t *tr) rangeStmt(x *ast.RangeStmt, sc *sctx, k string) string {
 		}
 	}
 	var elemType string
+	feConv := false // exact weights: a weight enumerated by a store of the class (float64) enters the exact envelope
 	if isForEach {
 		isMap = true // same shape as a map range: (key, value) pairs
 		elemType = "Int × " + t.fl()
+		if t.rat() {
+			elemType = "Int × F64"
+			feConv = true
+		}
 	} else if isMap {
 		elemType = "Int × " + t.leanType(mt.Elem())
 		// the loop may read, update or delete the entry of the current key only (iteration is over a snapshot)
@@ -2997,6 +3128,9 @@ func (t *tr) rangeStmt(x *ast.RangeStmt, sc *sctx, k string) string {
 	}
 	inner := &sctx{monad: "loop", brk: ".done " + stTuple, cont: hole + tail}
 	body := t.stmts(x.Body.List, inner, hole+tail)
+	if feConv && val != "_" {
+		body = "GoSem.optL (GoSem.ratOfF64 " + val + ") (fun " + val + " =>\n" + body + ")"
+	}
 	rec := name
 	if t.typeArgs() != "" {
 		rec += " " + t.typeArgs()
@@ -3404,6 +3538,11 @@ func (t *tr) analyseRes() {
 					}
 					if callee := t.byObj[obj]; callee != nil && callee.res {
 						r = true
+					}
+					if sel, ok := e.Fun.(*ast.SelectorExpr); ok && sel.Sel.Name == "ForEach" && len(e.Args) == 1 {
+						if _, isLit := e.Args[0].(*ast.FuncLit); isLit {
+							r = true // a loop over the bins a store enumerates
+						}
 					}
 					if obj != nil && obj.Pkg() != nil && obj.Pkg().Path() == "encoding/binary" {
 						r = true
@@ -5198,6 +5337,56 @@ var paginatedIterUnit = func() transUnit {
 	return u
 }()
 
+// the sketch level: iteration in state-passing form, the constructors / decoders that take a store provider, accessors
+var sketchIterUnit = func() transUnit {
+	u := extend(&sketchUnit, "CodeSketchIter", "DDS.Gen.SketchIter",
+		"DDSketch.ForEach", "DDSketch.GetSum", "DDSketchWithExactSummaryStatistics.ForEach",
+		"DDSketch.GetPositiveValueStore", "DDSketch.GetNegativeValueStore",
+		"DDSketchWithExactSummaryStatistics.GetPositiveValueStore", "DDSketchWithExactSummaryStatistics.GetNegativeValueStore",
+		"NewDDSketchFromStoreProvider", "NewDDSketchWithExactSummaryStatistics", "DecodeDDSketch",
+		"DDSketchWithExactSummaryStatistics.ChangeMapping",
+		"DDSketch.decodeAndMergeWith", "DDSketchWithExactSummaryStatistics.DecodeAndMergeWith",
+		"DecodeDDSketchWithExactSummaryStatistics")
+	u.ExternFuncs = mergeExterns(sketchUnit.ExternFuncs, map[string]externFn{
+		"encoding.DecodeFloat64LE": {Lean: "DDS.Gen.Encoding.DecodeFloat64LE", Res: true, MutParams: []int{0}}})
+	u.Stateful = map[string]string{"DDSketch.ForEach": "f", "DDSketchWithExactSummaryStatistics.ForEach": "f",
+		"DDSketch.decodeAndMergeWith": "fallbackDecode"}
+	return u
+}()
+
+// `T.DecodeAndMergeWith` of the dense, collapsing and sparse stores: the generic decoder of CodeStoreDecode applied to
+// the receiver as a `Store`, i.e. through whatever StoreI instance the receiver's type is given
+var denseDecodeUnit = func() transUnit {
+	u := extend(&denseUnit, "CodeDenseDecode", "DDS.Gen.DenseDecode", "DenseStore.DecodeAndMergeWith",
+		"CollapsingLowestDenseStore.DecodeAndMergeWith", "CollapsingHighestDenseStore.DecodeAndMergeWith")
+	u.TypeParams = "[StoreI DDS.Gen.Dense.DenseStore] [StoreI DDS.Gen.Dense.CollapsingLowestDenseStore] [StoreI DDS.Gen.Dense.CollapsingHighestDenseStore]"
+	u.Imports = append(append([]string{}, denseUnit.Imports...), "DDS.Generated.CodeStoreDecode")
+	u.ExternFuncs = mergeExterns(denseUnit.ExternFuncs, map[string]externFn{
+		"store.DecodeAndMergeWith": {Lean: "DDS.Gen.StoreDecode.DecodeAndMergeWith", Res: true, MutParams: []int{0, 1}}})
+	return u
+}()
+
+// the sparse store's `MergeWith` (any store: a loop over the bins the argument enumerates) and `DecodeAndMergeWith`
+var sparseMergeUnit = func() transUnit {
+	u := extend(&sparseUnit, "CodeSparseMerge", "DDS.Gen.SparseMerge", "SparseStore.MergeWith")
+	u.TypeParams = "{S : Type} [StoreI S]"
+	u.TypeArgs = "(S := S)"
+	u.Imports = append(append([]string{}, sparseUnit.Imports...), "DDS.Model.GoIface")
+	u.Ifaces = map[string]ifaceSpec{"store.Store": storeDecodeUnit.Ifaces["store.Store"]}
+	return u
+}()
+
+var sparseDecodeUnit = func() transUnit {
+	u := extend(&sparseUnit, "CodeSparseDecode", "DDS.Gen.SparseDecode", "SparseStore.DecodeAndMergeWith")
+	u.TypeParams = "[StoreI DDS.Gen.Sparse.SparseStore]"
+	u.Imports = append(append([]string{}, sparseUnit.Imports...), "DDS.Generated.CodeStoreDecode")
+	u.ExternFuncs = mergeExterns(sparseUnit.ExternFuncs, map[string]externFn{
+		"store.DecodeAndMergeWith": {Lean: "DDS.Gen.StoreDecode.DecodeAndMergeWith", Res: true, MutParams: []int{0, 1}}})
+	return u
+}()
+
+var mappingCtorUnit = extend(&transUnits[3], "CodeMappingCtor", "DDS.Gen.MappingCtor", "NewDefaultMapping")
+
 func init() {
-	transUnits = append(transUnits, denseIterUnit, sparseIterUnit, paginatedIterUnit)
+	transUnits = append(transUnits, denseIterUnit, sparseIterUnit, paginatedIterUnit, sketchIterUnit, denseDecodeUnit, sparseMergeUnit, sparseDecodeUnit, mappingCtorUnit)
 }
